@@ -793,10 +793,10 @@ func (cc *c14CC) NewSubConn(a []resolver.Address, _ balancer.NewSubConnOptions) 
 	cc.subs = append(cc.subs, sc)
 	return sc, nil
 }
-func (cc *c14CC) RemoveSubConn(balancer.SubConn)                          {}
-func (cc *c14CC) UpdateAddresses(balancer.SubConn, []resolver.Address)    {}
-func (cc *c14CC) ResolveNow(resolver.ResolveNowOptions)                   {}
-func (cc *c14CC) Target() string                                          { return "verif:///c14" }
+func (cc *c14CC) RemoveSubConn(balancer.SubConn)                       {}
+func (cc *c14CC) UpdateAddresses(balancer.SubConn, []resolver.Address) {}
+func (cc *c14CC) ResolveNow(resolver.ResolveNowOptions)                {}
+func (cc *c14CC) Target() string                                       { return "verif:///c14" }
 func (cc *c14CC) UpdateState(s balancer.State) {
 	cc.mu.Lock()
 	cc.state = s
